@@ -77,6 +77,8 @@ fn main() {
         "replay" => sandbox::parent(&args[2], &args[3]),
         "worker" => sandbox::worker(&args[2], &args[3], args[4].parse().unwrap()),
         "gen-trace" => gentrace::main(&args[2], args[3].parse().unwrap(), args[4].parse().unwrap()),
+        "record" => gentrace::record_one(&args[2], &args[3]),
+        "gen-trace-worker" => gentrace::worker(&args[2], args[3].parse().unwrap(), args[4].parse().unwrap(), args[5].parse().unwrap()),
         _ => { eprintln!("unknown command"); 2 }
     };
     std::process::exit(code);
